@@ -78,6 +78,11 @@ def _integral_guard(body, c):
     return False
 
 
+# bodies of built-in *functions the documented language does not have* (`round`, `floor`, `ceil` added by a feature) and
+# what only they call: dropping digits there is what the function is for, not a silent truncation (set by props)
+UNDOCUMENTED_HANDLER_BODIES = set()
+
+
 def rule_nowrap(bodies, rule='NOWRAP'):
     obs = []
     n = 0
@@ -115,6 +120,8 @@ def rule_nowrap(bodies, rule='NOWRAP'):
         for c in body.live_calls:
             nme = c.rdef or c.callee or ''
             if (LOSSY_CONV.search(nme) or LOSSY_CONV.search(c.callee or '')) and c.fn and any('rust_decimal::Decimal' in a for a in c.fn.get('args', []) + c.term['arg_tys']):
+                if getattr(body, 'orig_id', body.id) in UNDOCUMENTED_HANDLER_BODIES and re.search(r'::(round\w*|trunc\w*|floor|ceil|fract|rescale|normalize)$', nme):
+                    continue
                 if not _integral_guard(body, c):
                     k = cnt.get(nme, 0); cnt[nme] = k + 1
                     obs.append(bad(rule, '%s|%s|lossy:%s|#%d' % (rule, body.name, nme.split('::')[-1], k),
